@@ -440,6 +440,7 @@ func (s *Store) HasByHeight(ctx context.Context, height uint64) (bool, error) {
 }
 
 func (s *Store) hasByHeight(height uint64) (bool, error) {
+	verifMark("has", height, "")
 	if s.cache.Has(height) {
 		return true, nil
 	}
